@@ -41,6 +41,7 @@ func runC05(c *Ctx) {
 	c.Clause("C05.4 rollKeys only after a successful open with the next key past the 'updated too quickly' guard, or from KeyPhase past shouldInitiateKeyUpdate→updateAllowed (handshake confirmed ∧ (phase 0 ∨ current phase acknowledged))")
 	c.Clause("C05.5 packet-number generators only increase; each packed packet pops exactly the peeked number")
 	c.Clause("C05.6 every createAEAD call passes the version field of its owner; C05.7 both unpackers restore the saved bytes behind the packet number for every length other than 4")
+	c.Clause("C05.11 both header protectors derive an hp key of suite.KeyLen bytes")
 	c.Clause("C05.10 both unpackers parse the protected header fields only after DecryptHeader (the repository's stated precondition of ParseShortHeader)")
 	c.Clause("C05.9 the unpacker's indexing and slicing of a received packet (sample, packet-number bytes, AEAD input) is in bounds: compiler-proven, length fact from the 'packet too small' guards, or one of 8 frozen exceptions (cross-call header lengths, packet-number length 1..4)")
 	c.Clause("C05.8 rollKeys re-initialises every …WithCurrentKey field; GetRetryIntegrityTag resets the shared buffer before releasing its mutex")
@@ -58,6 +59,7 @@ func runC05(c *Ctx) {
 	c.rule("C05.8", func() { c05PhaseStateAndRetryBuf(c) })
 	c.rule("C05.9", func() { c05UnpackerBounds(c) })
 	c.rule("C05.10", func() { c05ParseAfterUnprotect(c) })
+	c.rule("C05.11", func() { c05HPKeyLength(c) })
 }
 
 // globalBytes evaluates a package-level `[]byte{...}` / `[N]byte{...}` variable initialiser.
